@@ -66,6 +66,8 @@ PROPS = {
                 ALL,
             ),
             "heap": (["Executor::retain", "Executor::release", "Executor::push_value", "Executor::pop_value"], ALL),
+            # the expiry wake-up: exactly the parked processes one of whose timeouts has run out go back to the run queue
+            "step": (["Executor::check_expired_timeouts"], ALL),
         },
         "kani": [],
     },
